@@ -777,6 +777,93 @@ fn directed(r: &mut Rng, g: &Gen) -> Case {
     Case { terms: vec![(terms, names)], args: vec![b, a], header: "# Experimental!\n".into(), bind: false }
 }
 
+/// a monotone (or, rarely, unordered) index list that mixes negative and non-negative entries
+fn mono_indices(r: &mut Rng, n: usize) -> Vec<i64> {
+    let n = n.max(1) as i64;
+    let len = 1 + r.below(4);
+    let mut v: Vec<i64> = (0..len)
+        .map(|_| match r.below(10) {
+            0 => r.range(-n - 1, n),         // may be out of bounds
+            1..=4 => r.range(-n, -1),
+            _ => r.range(0, n - 1),
+        })
+        .collect();
+    match r.below(5) {
+        0 | 1 => v.sort(),
+        2 | 3 => {
+            v.sort();
+            v.reverse()
+        }
+        _ => {}
+    }
+    v
+}
+
+fn lit_ints(v: &[i64], shape2: bool) -> String {
+    let items: Vec<String> = v.iter().map(|x| lit_num(*x as f64)).collect();
+    if shape2 && v.len() >= 2 && v.len() % 2 == 0 {
+        format!("(↯[2 {}][{}])", v.len() / 2, items.join(" "))
+    } else if v.len() == 1 && shape2 {
+        items[0].clone()
+    } else {
+        format!("[{}]", items.join(" "))
+    }
+}
+
+const STRUCT_DYADIC: [&str; 14] = ["⊏", "⊏", "⊏", "⊏", "⊡", "↙", "↘", "↻", "▽", "⊏", "☇", "⤸", "◫", "↯"];
+const MARKERS: [&str; 8] = ["⍆", "⇌⍆", "⍆", "⇌⍆", "⍆◴", "⇌⍆◴", "⇡⧻", "⇌⇡⧻"];
+
+/// structural primitives applied to arguments whose marks were set at run time, with index
+/// arguments that are monotone lists mixing negative and non-negative entries (also rank 2,
+/// also under a fill)
+fn directed_struct(r: &mut Rng) -> Case {
+    let kind = *r.pick(&[0usize, 0, 1, 1, 2, 4, 3]);
+    let rows = 2 + r.below(4);
+    let mut shape = vec![rows];
+    if r.chance(1, 3) {
+        shape.push(1 + r.below(3));
+    }
+    let arr = gen_typed(r, kind, &shape, 0);
+    let f = *r.pick(&STRUCT_DYADIC);
+    let idx = mono_indices(r, rows);
+    let idx_lit = if f == "▽" {
+        let counts: Vec<i64> = (0..rows).map(|_| r.range(0, 2)).collect();
+        lit_ints(&counts, false)
+    } else {
+        lit_ints(&idx, r.chance(1, 6))
+    };
+    let fill = if r.chance(1, 4) {
+        match kind {
+            2 => "⬚@a",
+            4 => "⬚(□0)",
+            _ => *r.pick(&["⬚0", "⬚¯1", "⬚∞"]),
+        }
+    } else {
+        ""
+    };
+    let name = match f {
+        "⊏" => "select",
+        "⊡" => "pick",
+        "↙" => "take",
+        "↘" => "drop",
+        "↻" => "rotate",
+        "▽" => "keep",
+        "☇" => "rerank",
+        "⤸" => "orient",
+        "◫" => "windows",
+        _ => "reshape",
+    };
+    let core = format!("{fill}{f} {idx_lit}");
+    let (term, names): (String, Vec<String>) = match r.below(10) {
+        0 => (format!("⍜({core})⇌"), vec!["under".into(), name.into()]),
+        1 => (format!("≡({core})"), vec!["rows".into(), name.into()]),
+        2 => (format!("⇌ {core}"), vec!["reverse".into(), name.into()]),
+        _ => (core, vec![name.into()]),
+    };
+    let marker = r.pick(&MARKERS).to_string();
+    Case { terms: vec![(term, names), (marker, vec!["prep".into()])], args: vec![arr], header: "# Experimental!\n".into(), bind: false }
+}
+
 // ------------------------------------------------------------------ cross-check of the validator
 
 fn flag_tree(v: &Value) -> String {
@@ -909,7 +996,10 @@ fn main() {
                     print_stats(&st);
                     st = Stats::default();
                 }
-                let c = if i % 3 == 2 {
+                let c = if i % 6 == 5 {
+                    let mut r = Rng::new(seed.wrapping_mul(1_000_003).wrapping_add(i));
+                    directed_struct(&mut r)
+                } else if i % 3 == 2 {
                     let mut r = Rng::new(seed.wrapping_mul(1_000_003).wrapping_add(i));
                     directed(&mut r, &g)
                 } else {
@@ -922,7 +1012,10 @@ fn main() {
         "one" => {
             let mut st = Stats::default();
             let i = a2;
-            let c = if i % 3 == 2 {
+            let c = if i % 6 == 5 {
+                let mut r = Rng::new(seed.wrapping_mul(1_000_003).wrapping_add(i));
+                directed_struct(&mut r)
+            } else if i % 3 == 2 {
                 let mut r = Rng::new(seed.wrapping_mul(1_000_003).wrapping_add(i));
                 directed(&mut r, &g)
             } else {
@@ -1021,7 +1114,9 @@ const CONCRETE: [(&str, &str, usize); 10] = [
     ("CCouple", "⊟", 2),
     ("CRange", "⇡", 1),
 ];
-const RULES: [(&str, &str, usize); 15] = [
+const RULES: [(&str, &str, usize); 17] = [
+    ("RSelect", "⊏", 2),
+    ("RSelect", "⊏", 2),
     ("RClassify", "⊛", 1),
     ("RTranspose", "⍉", 1),
     ("RWhere", "⊚", 1),
@@ -1084,7 +1179,28 @@ fn tie(n: usize, seed: u64) {
         } else {
             args.push(tie_arg(&mut r, kind, &shape));
         }
-        if nargs == 2 {
+        if name == "RSelect" {
+            // [indices (top); selected-from array]: monotone index lists mixing signs, rank 0 or 1
+            let rows = 2 + r.below(4);
+            let mut sh = vec![rows];
+            if r.chance(1, 4) {
+                sh.push(1 + r.below(2));
+            }
+            let k = r.below(5);
+            let from = tie_arg(&mut r, k, &sh);
+            let n = from.row_count();
+            let idx = mono_indices(&mut r, n);
+            let iv = if r.chance(1, 8) {
+                num(&[], &[idx[0] as f64])
+            } else if idx.iter().all(|&x| x >= 0) && r.chance(1, 2) {
+                byte(&[idx.len()], &idx.iter().map(|&x| x as u8).collect::<Vec<_>>())
+            } else {
+                num(&[idx.len()], &idx.iter().map(|&x| x as f64).collect::<Vec<_>>())
+            };
+            args.clear();
+            args.push(iv);
+            args.push(from);
+        } else if nargs == 2 {
             let second = if name == "CCouple" {
                 let mut b = tie_arg(&mut r, kind, &shape);
                 if r.chance(1, 4) {
